@@ -17,6 +17,14 @@ def run(ctx, rep):
     rep.rule('D1.log', 'log_probability_density is np.log(self.probability_density(X)) and no family overrides it with something else')
     rep.rule('D2.sym', 'the closed-form density is invariant under swapping its two arguments (AC normal form)')
     rep.rule('D3.rows', 'no reduction over the batch axis influences probability_density / partial_derivative')
+    rep.rule('D4.values', 'interval abstract interpretation of the closed-form density and conditional CDF over a partition of (theta, u, v): '
+             'density >= 0, conditional CDF in [0,1], 0 at u=0 and 1 at u=1 are proved, refuted (definite) or left undecided per clause')
+    from . import ivcases
+    ivcases.refine(ctx)
+    fams = ('Clayton', 'Frank', 'Gumbel', 'Independence')
+    n = ivcases.run_family_clauses(ctx, rep, 'D4.values', 'partial_derivative', ivcases.h_clauses(), fams)
+    n += ivcases.run_family_clauses(ctx, rep, 'D4.values', 'probability_density', ivcases.pdf_clauses())
+    rep.floor('D4.values', 'family x clause evaluations', n, 15)
     base = prog.method('copulas.bivariate.base.Bivariate', 'log_probability_density', inherited=False)
     for cls in [prog.cls('copulas.bivariate.base.Bivariate')] + prog.cls('copulas.bivariate.base.Bivariate').subclasses():
         m = cls.methods.get('log_probability_density')
